@@ -9,7 +9,7 @@ from vf.runner import Acc, filler
 PROPERTY = "C12"
 CONCUR_FILES = ('bits/bips/bip340.py', 'bits/ecmath.py')
 # (thread a, thread b), warm-up: indices into seq_ops() - the ordinary single-case checks run concurrently (vf/concur.py)
-CONCUR_SCEN = [((1, 8), (0,)), ((2, 9), (1,)), ((2, 2), (7, 8))]
+CONCUR_SCEN = [((1, 8), (0,)), ((2, 9), (1,)), ((2, 2), (7, 8)), ((1, 8, 2), ())]   # the last one: three threads
 LEVEL = "exploration"
 ENGINES = ["E2-small-curve", "E1-scope-enumerator"]
 RULE = ("layer A (small curves): bip340.sign for EVERY secret key in [0,n+1] x 4 messages x 4 aux modes (incl. omitted aux "
@@ -239,7 +239,7 @@ def jobs(tier, seed):
     from vf.runner import seq_jobs
     js += seq_jobs(4, curve=list(T[0]), weight=4)
     from vf.runner import concur_jobs
-    js += concur_jobs(len(CONCUR_SCEN), curve=list(T[0]))
+    js += concur_jobs(len(CONCUR_SCEN) - (1 if tier == "quick" else 0), curve=list(T[0]))
     for i in range(3):
         js.append({"name": f"concurrent/{i}", "part": "concur", "curve": list(T[0]), "idx": i, "weight": 8})
     return js
